@@ -65,7 +65,7 @@ CLAIMS.update({
 
 CLAIMS.update({
  "C01": ("agreement analysis between type_info and resolve of every `impl Expression` (child-set comparison, effect pairing via P-EFFECT, taint through join functions, per-variant table) + abstract interpretation of Op::type_info's MIR over a finite kind domain (P-ABS) compared with the operators' result variants (P-VAR)",
-         "R01a state threading, R01b mutator<->type-effect pairing, R01c join discipline (Details::merge), R01d literal base cases, R01e operator result kinds contain every variant the operator can return, R01f state versions: the returned TypeState of Op/If/Not/Group/Return contains every always-evaluated child and no conditionally evaluated one (found and repaired: `x = 10 / (b = 2)`), R01g branch isolation in compile_if_statement. Necessary conditions of type "
+         "R01a state threading, R01b mutator<->type-effect pairing, R01c join discipline (Details::merge), R01d literal base cases, R01e operator result kinds contain every variant the operator can return, R01f state versions: the returned TypeState of Op/If/Not/Group/Return contains every always-evaluated child and no conditionally evaluated one (found and repaired: `x = 10 / (b = 2)`), R01g branch isolation in compile_if_statement, R01h closure effects in FunctionCall::type_info (recorded known finding, upstream TODO). Necessary conditions of type "
          "soundness; found LocalEnv::merge, Return::type_info and del-on-local defects (fixed).", "§4 C01"),
  "C08": ("P-VAR over Op::resolve and Variant::resolve with provenance classification of stored values; table agreement of DefaultValue",
          "R08a-d: `??` evaluates rhs only on Err, returns Ok(lhs) unchanged and otherwise returns rhs's Result untested; the four (outcome,target) stores of "
@@ -77,7 +77,7 @@ CLAIMS.update({
 
 CLAIMS.update({
  "C03": ("table agreement over all 203 functions (F-MAP + P-CONST): ArgumentList keywords vs PARAMETERS; consumer classification of coercion results with P-VAR variant knowledge; producer classification of returned values (P-RET) vs return_kind() bits and vs the abstractly evaluated type_def (P-ABS); interprocedural flow of restricted argument values into kind-agnostic conversions; dataflow of Kind operands in the call builder",
-         "R03a keyword agreement, R03d no unwrap/expect on a coercion of a run-time value in resolve-reachable code, R03f progressive type check on the argument's own kind, R03c returned Value variants are inside the documented return kinds, R03g inside the type_def evaluated under the declared parameter kinds (P-ABS), R03h restricted arguments never reach a kind-agnostic conversion unchecked. Found and fixed three panicking functions.", "§4 C03"),
+         "R03a keyword agreement, R03d no unwrap/expect on a coercion of a run-time value in resolve-reachable code, R03f progressive type check on the argument's own kind, R03c returned Value variants are inside the documented return kinds, R03g inside the type_def evaluated under the declared parameter kinds (P-ABS), R03h restricted arguments never reach a kind-agnostic conversion unchecked. Found and fixed three panicking functions and the compact/flatten type_def.", "§4 C03"),
  "C04": ("panic-class rules: coercion/target result consumers, keyword agreement, overflow-capable negation, guarded sign-losing casts (dominance + alias analysis)",
          "R04a,b,c,e,f,g,h,i decide absence of eight classes of host panic (coercion/target unwraps, keyword mismatch, negation overflow, sign-losing casts, char-count byte indices, zero-intolerant operations and checked shifts, regex Captures indexing); the remaining panic-capable sites (indexing, internal unwraps, third-party) are explicitly undecided.", "§4 C04"),
  "C05": ("dominance/guard analysis of every signed->unsigned cast of a run-time integer in stdlib/value code",
